@@ -252,7 +252,7 @@ func progNontrivial(c progCase) bool {
 func TestC07Model(t *testing.T) {
 	run := h.Begin("C07", "model", "rapid: histories of 1-4 programs evaluated by one runner; programs mix '$n = e', reads, forbidden targets (x = e, $a.k = e, ($a) = e, 1 = e, rec() = e, newname = e), ',', arrays, rec(...) calls, ?: with literal or comparison conditions, parentheses and integer '+' over locals $a $b $c and data names x y m s d; oracle: a store-passing reference evaluator (result value, final value of every $ key in the caller's map, ordered rec trace = left-to-right evaluation, error iff a forbidden assignment is evaluated) and a deep snapshot of the caller's data taken before each evaluation (no non-$ entry added/removed/changed, no reachable map/slice/number mutated); non-trivial: an assignment that is read afterwards, a re-assignment or a forbidden target; distinct by history text")
 	defer run.End(t)
-	h.RapidSetup(h.N(8000, 600000), "c07model")
+	h.RapidSetup(h.N(8000, 2000000), "c07model")
 	rapid.Check(t, func(rt *rapid.T) {
 		n := rapid.IntRange(1, 4).Draw(rt, "nprogs")
 		var c progCase
@@ -281,7 +281,7 @@ var c07Alphabet = []string{"$a", "$b", "x", "1", "2", "=", ",", "(", ")", "[", "
 
 // TestC07Exhaustive: every token sequence up to k tokens over a small alphabet.
 func TestC07Exhaustive(t *testing.T) {
-	k := h.N(5, 6)
+	k := h.N(5, 7)
 	run := h.Begin("C07", "exhaustive", fmt.Sprintf("bounded-exhaustive: every sequence of 1..%d tokens over {$a, $b, x, 1, 2, =, ',', (, ), [, ], +, rec, 's'} that parses and stays inside the specified sub-language, evaluated once on a fresh runner and once more followed by '[$a, $b]'; same oracle as the model part; non-trivial as in the model part", k))
 	defer run.End(t)
 	var sb strings.Builder
@@ -372,7 +372,7 @@ func diffLines(a, b string) string {
 func TestC07Frame(t *testing.T) {
 	run := h.Begin("C07", "frame", "rapid: general grammar-directed programs (the C03 generator: every operator, builtin and host function over the world of all data kinds, including a *decimal.Big entry, nested maps, typed slices and a pointer to a struct) evaluated twice on one runner; oracle: the deep snapshot (types, addresses of maps/slices/pointers, contents, decimal representation) of all non-$ entries is identical before and after; non-trivial: the program contains an assignment, a call or a unary/binary operator on a data name; distinct by text")
 	defer run.End(t)
-	h.RapidSetup(h.N(6000, 500000), "c07frame")
+	h.RapidSetup(h.N(6000, 1500000), "c07frame")
 	rapid.Check(t, func(rt *rapid.T) {
 		ast := genExpr(rt, &c03Cfg, rapid.IntRange(1, 5).Draw(rt, "depth"), ref.LvComma)
 		boundPads(rt, ast)
